@@ -554,6 +554,31 @@ func runC16(c *Ctx) {
 			}
 		})
 	}
+	// ... or one context kept for all blocks whose "local" object is replaced after every block:
+	// ctx.Variables["local"] = cty.ObjectVal(<merged locals>)
+	var inPlace *ssa.MapUpdate
+	if build == nil {
+		for _, g := range FindFuncs(dl, 2, func(*ssa.Function) bool { return true }) {
+			EachInstr(g, func(in ssa.Instruction) {
+				mu, ok := in.(*ssa.MapUpdate)
+				if !ok || !inLoop(mu) {
+					return
+				}
+				if k, isS := ConstString(mu.Key); !isS || k != "local" {
+					return
+				}
+				if fv, base := FieldOf(Strip(mu.Map)); fv != nil && fv.Name() == "Variables" {
+					if _, tn := NamedOf(base.Type()); tn == "EvalContext" {
+						inPlace = mu
+					}
+				}
+			})
+		}
+	}
+	if blk != nil && merge != nil && build == nil && inPlace != nil {
+		c16LocalsInPlace(c, dl, dlb, blk, merge, mergeFn, inPlace)
+		return
+	}
 	if blk == nil || merge == nil || build == nil {
 		c.Anchor("O16.6", "decodeLocalBlock / mergeMaps / buildHclContext calls in the loop of decodeLocals")
 		return
@@ -639,6 +664,78 @@ func runC16(c *Ctx) {
 	_ = token.NoPos
 	c16FunctionTable(c, dl)
 }
+
+// c16LocalsInPlace: the form of O16.6 in which one evaluation context serves all blocks and its "local" object is
+// replaced after each block.
+func c16LocalsInPlace(c *Ctx, dl, dlb *ssa.Function, blk, merge *ssa.Call, mergeFn *ssa.Function, up *ssa.MapUpdate) {
+	// the updated context is the one the block was evaluated with, and it was made by buildHclContext
+	_, ctxOfUpdate := FieldOf(Strip(up.Map))
+	sameCtx := ctxOfUpdate != nil && (sameRoots(ctxOfUpdate, blk.Call.Args[1]) || sameFieldLoad(ctxOfUpdate, blk.Call.Args[1]))
+	built := DerivesThrough(blk.Call.Args[1], func(v ssa.Value) bool {
+		cl, _ := CallOfValue(v)
+		return cl != nil && cl.Call.StaticCallee() != nil && cl.Call.StaticCallee().Name() == "buildHclContext"
+	})
+	// the new object is made from the merge of the accumulated locals and this block's
+	ov, _ := CallOfValue(up.Value)
+	fromMerge := ov != nil && CalleeObj(&ov.Call) != nil && CalleeObj(&ov.Call).Name() == "ObjectVal" && len(ov.Call.Args) == 1 &&
+		(DerivesOnly(ov.Call.Args[0], false, func(v ssa.Value) bool { return v == ssa.Value(merge) }) || (InstrDominates(merge, ov) && sameRootsOrField(ov.Call.Args[0], merge.Call.Args[0])))
+	c.Check(sameCtx && built && fromMerge, "O16.6", fk(dl)+":locals-accumulate-across-blocks", up.Pos(),
+		fmt.Sprintf("one context for all blocks: the context whose `local` object is replaced is the one the block was evaluated with: %v; it was made by buildHclContext: %v; the new object is cty.ObjectVal(<merged locals>): %v", sameCtx, built, fromMerge))
+	c.Check(sameCtx, "O16.6", fk(dl)+":blocks-see-earlier-locals", blk.Pos(), "decodeLocalBlock is evaluated with the context that the previous block updated")
+	// merge order: the overwritten map is the accumulator, the overwriting one this block's result
+	toIdx, fromIdx := 0, 1
+	if mergeFn != nil {
+		toIdx, fromIdx = -1, -1
+		EachInstr(mergeFn, func(in ssa.Instruction) {
+			switch x := in.(type) {
+			case *ssa.MapUpdate:
+				for i, p := range mergeFn.Params {
+					if x.Map == ssa.Value(p) {
+						toIdx = i
+					}
+				}
+			case *ssa.Range:
+				for i, p := range mergeFn.Params {
+					if x.X == ssa.Value(p) {
+						fromIdx = i
+					}
+				}
+			case *ssa.Call:
+				if isGenericStd(x, "maps", "Copy") && len(x.Call.Args) == 2 {
+					for i, p := range mergeFn.Params {
+						if DerivesOnly(x.Call.Args[0], false, func(v ssa.Value) bool { return v == ssa.Value(p) }) {
+							toIdx = i
+						}
+						if DerivesOnly(x.Call.Args[1], false, func(v ssa.Value) bool { return v == ssa.Value(p) }) {
+							fromIdx = i
+						}
+					}
+				}
+			}
+		})
+	}
+	okOrder := toIdx >= 0 && fromIdx >= 0 && toIdx != fromIdx &&
+		DerivesOnly(merge.Call.Args[fromIdx], false, IsResultOf(blk, 0)) && !DerivesAny(merge.Call.Args[toIdx], false, IsResultOf(blk, 0))
+	c.Check(okOrder, "O16.6", fk(dl)+":later-definition-replaces-earlier", merge.Pos(), "the merge overwrites the accumulated locals with the block just evaluated")
+	okAttr := false
+	EachInstr(dlb, func(in ssa.Instruction) {
+		cc := CC(in)
+		if cc != nil && cc.IsInvoke() && cc.Method.Name() == "Value" && len(cc.Args) == 1 && cc.Args[0] == ssa.Value(dlb.Params[1]) {
+			okAttr = true
+		}
+	})
+	c.Check(okAttr, "O16.6", fk(dlb)+":attributes-evaluated-in-context", dlb.Pos(), "every locals attribute expression is evaluated with the accumulated context")
+	c16FunctionTable(c, dl)
+}
+
+// sameFieldLoad: both values are loads of the same struct field.
+func sameFieldLoad(a, b ssa.Value) bool {
+	fa, _ := FieldOf(Strip(a))
+	fb, _ := FieldOf(Strip(b))
+	return fa != nil && fa == fb
+}
+
+func sameRootsOrField(a, b ssa.Value) bool { return sameRoots(a, b) || sameFieldLoad(a, b) }
 
 // c16FunctionTable: O16.8.
 func c16FunctionTable(c *Ctx, dl *ssa.Function) {
